@@ -45,6 +45,25 @@ class CallableObject:
         return self.fn(task_id)
 
 
+class StrMapping:
+    """A mapping that is no dict (func(**x) must work for any mapping with string keys)."""
+
+    def __init__(self, d: dict) -> None:
+        self._d = d
+
+    def keys(self) -> Any:
+        return self._d.keys()
+
+    def __getitem__(self, k: str) -> Any:
+        return self._d[k]
+
+    def __iter__(self) -> Any:
+        return iter(self._d)
+
+    def __len__(self) -> int:
+        return len(self._d)
+
+
 class Sentinel:
     """Identity-checked argument object."""
 
@@ -526,14 +545,19 @@ class World:
         n = spec.get("n", 0)
         kind = rm.kind
         elems = []
+        shapes = spec.get("shapes") or [0]
         for j in range(n):
             s = Sentinel(f"r{rm.rid}e{j}")
+            shape = shapes[j % len(shapes)]
             if kind == "map":
-                elems.append(("m", s, j))
+                # any object is an element: tuples, lists, dicts, strings, None
+                elems.append([("m", s, j), ["m", s, j], {"s": s, "j": j}, f"r{rm.rid}e{j}", None][shape % 5])
             elif kind == "starmap":
-                elems.append(("m", s, j))
+                # func(*x) for any iterable x: a dict contributes its keys, a string its characters
+                elems.append([("m", s, j), ["m", s], {s: 1, Sentinel(f"r{rm.rid}f{j}"): 2}, "ab", ()][shape % 5])
             else:
-                elems.append({"s": s, "j": j})
+                import types as _t
+                elems.append([{"s": s, "j": j}, _t.MappingProxyType({"s": s}), {}, {"s": s, "j": j}, StrMapping({"k": s})][shape % 5])
         rm.elements = elems
         pull_ops = spec.get("pull_ops") or {}
         raise_at = spec.get("raise_at", -1)
